@@ -165,6 +165,7 @@ pub fn gen_case(r: &mut Rng, tiny: bool, big_ok: bool, i: usize) -> Doc {
             let rd = gj::render(r, &ro, &v);
             Doc { val: v, rd, tag: "large" }
         }
+        7 if big_ok => l2_records(r),
         6 => {
             // scalar root / empty containers / whitespace only around
             let v = match r.below(6) {
@@ -189,6 +190,49 @@ pub fn gen_case(r: &mut Rng, tiny: bool, big_ok: bool, i: usize) -> Doc {
             Doc { val: v, rd, tag: "mixed" }
         }
     }
+}
+
+/// Large document whose BP sequence exceeds one 65,536-bit L2 block (> 32,768 nodes) and whose
+/// containers stay open, several levels deep, across L1 (2,048-bit) and L2 block boundaries
+/// while the excess only falls gradually: records with a big k-level nested member followed by
+/// a flat member of > 1,000 nodes, wrapped in a few outer levels. Hierarchical min-excess
+/// summaries are exercised by the sibling / child walk over such documents.
+pub fn l2_records(r: &mut Rng) -> Doc {
+    fn nested(r: &mut Rng, levels: usize, width: usize) -> Val {
+        if levels == 0 {
+            return Val::int(r.range_i64(0, 99));
+        }
+        let n = r.range(2, width.max(2));
+        if r.bool() {
+            Val::Arr((0..n).map(|_| nested(r, levels - 1, width)).collect())
+        } else {
+            Val::Obj((0..n).map(|i| (format!("k{i}"), nested(r, levels - 1, width))).collect())
+        }
+    }
+    let target = *r.pick(&[36_000usize, 45_000, 70_000]);
+    let mut records = Vec::new();
+    let mut total = 0usize;
+    while total < target {
+        let levels = r.range(3, 7);
+        let w = *r.pick(&[3usize, 4, 6]);
+        let big = nested(r, levels, w);
+        let flat_n = r.range(1000, 3000);
+        let flat = Val::Arr((0..flat_n).map(|i| Val::int(i as i64 % 10)).collect());
+        let rec = if r.bool() {
+            Val::Obj(vec![("n".into(), big), ("f".into(), flat), ("id".into(), Val::int(records.len() as i64))])
+        } else {
+            Val::Arr(vec![big, flat, Val::int(records.len() as i64)])
+        };
+        total += rec.node_count();
+        records.push(rec);
+    }
+    let mut v = Val::Arr(records);
+    for _ in 0..r.below(4) {
+        v = if r.bool() { Val::Arr(vec![Val::int(0), v, Val::int(1)]) } else { Val::Obj(vec![("w".into(), v), ("z".into(), Val::Null)]) };
+    }
+    let ro = RenderOpts { ws: r.below(2) as u8, esc: 0, align_to: None };
+    let rd = gj::render(r, &ro, &v);
+    Doc { val: v, rd, tag: "l2_records" }
 }
 
 /// serde_json cross-check of the generator. Ok(true) = agrees, Ok(false) = not applicable.
@@ -804,11 +848,20 @@ pub fn run(ctx: &Ctx) -> Report {
     let mut r = Rng::new(ctx.shard_seed());
     let cases = ctx.n(2500, 30_000, 8);
     let mut big_left = ctx.n(3, 25, 0);
+    let mut l2_left = ctx.n(2, 12, 0);
     for i in 0..cases {
         let big_ok = big_left > 0 && !ctx.tiny();
-        let doc = gen_case(&mut r, ctx.tiny(), big_ok, i);
+        // the first cases of every shard are L2-crossing record documents
+        let doc = if l2_left > 0 { l2_records(&mut r) } else { gen_case(&mut r, ctx.tiny(), big_ok, i) };
         if doc.tag == "large" {
             big_left -= 1;
+        }
+        if doc.tag == "l2_records" {
+            l2_left = l2_left.saturating_sub(1);
+            rep.count("doc.l2_records");
+            if doc.rd.nodes.len() > 32_768 {
+                rep.count("doc.bp_over_one_l2_block");
+            }
         }
         match generator_crosscheck(&doc) {
             Ok(true) => rep.count("generator.serde_agrees"),
@@ -854,6 +907,7 @@ pub fn run(ctx: &Ctx) -> Report {
         rep.require("doc.ws_cr", 200);
         rep.require("doc.ws_tab", 200);
         rep.require("doc.over_100kB", 1);
+        rep.require("doc.bp_over_one_l2_block", 2);
         rep.require("generator.serde_agrees", 1000);
     }
     rep
